@@ -208,7 +208,7 @@ Profile make_profile(const std::string& name)
         std::memcpy(p.w, w, sizeof w);
         p.ttls   = {{1, 3}, {1, 8}, {6, 50}, {20, 1000}};
         p.w_peek = 35;
-        p.w[O_REP] = 2;
+        p.w[O_REP] = 5;
         return p;
     }
     if (name == "fifo") // C12
@@ -336,7 +336,8 @@ rc::Gen<GOp> gen_op(const Profile& p)
         rc::gen::set(&GOp::rep_m, uni_int(1, 3)),
         rc::gen::set(&GOp::rep_n, std::getenv("VERIF_BIG_REPS")
                                       ? weighted<int>({{4, 2}, {2, 3}, {2, 127}, {2, 128}, {3, 254}, {3, 255}, {3, 256}, {2, 257}, {2, 510}, {2, 65535}, {2, 65536}})
-                                      : weighted<int>({{6, 2}, {4, 3}, {2, 127}, {2, 128}, {3, 254}, {3, 255}, {3, 256}, {2, 257}, {2, 510}})));
+                                      : weighted<int>({{4, 2}, {3, 3}, {1, 63}, {1, 64}, {1, 126}, {2, 127}, {2, 128}, {1, 129}, {2, 253}, {3, 254}, {3, 255}, {3, 256}, {2, 257}, {1, 258}, {1, 381}, {1, 382}, {1, 383}, {1, 384},
+                                                       {2, 509}, {2, 510}, {2, 511}, {2, 512}, {1, 513}, {1, 765}, {1, 766}, {1, 767}, {1, 768}, {1, 1021}, {1, 1022}, {1, 1023}, {1, 1024}})));
 }
 
 rc::Gen<GCase> gen_case(const Profile& p, const std::vector<int>& kinds)
